@@ -179,7 +179,21 @@ int main( int argc, char ** argv ) {
             long pos = ( long )in.tellg();
             int isnull = a.is_null() ? 1 : 0;
             std::string val = value_of( a, ai );
-            printf( "W %s %s %d %d %d %s %ld\n", hex( w.str() ).c_str(), hex( as ).c_str(), null0, ( int )sev, isnull, hex( val ).c_str(), pos );
+            // numeric kinds: the token the scalar writer produced, read and written again as the single element of a LIST attribute
+            // (attributes 9..11) - the element writers (IntNode / RealNode) must render the same value the same way
+            std::string aggw = "-";
+            int aggsev = 99;
+            if( ai <= 2 && !null0 && w.str().size() ) {
+                STEPattribute & g = e->attributes[ai + 9];
+                g.set_null();
+                std::istringstream gin( "(" + w.str() + ")," );
+                aggsev = ( int )g.STEPread( gin, &im, 0, "LIT", false );
+                std::ostringstream gw;
+                g.STEPwrite( gw, "LIT" );
+                aggw = hex( gw.str() );
+                g.set_null();
+            }
+            printf( "W %s %s %d %d %d %s %ld %s %d\n", hex( w.str() ).c_str(), hex( as ).c_str(), null0, ( int )sev, isnull, hex( val ).c_str(), pos, aggw.c_str(), aggsev );
         }
     }
     printf( "END %ld\n", n );
